@@ -4,9 +4,9 @@ import (
 	"fmt"
 	"go/token"
 	"go/types"
-	"sort"
 	"math"
 	"regexp"
+	"sort"
 	"strconv"
 	"strings"
 	"time"
